@@ -322,5 +322,79 @@ theorem writeBackN_spec (s : St α) (hlen : s.active.length = s.alpha.length)
       simp only [hne, false_and, if_false]
       exact hv i (by omega)
 
+
+/-- filtering positions and then reading equals filtering the values -/
+theorem filter_range_map (l : List α) (P : α → Bool) :
+    ((List.range l.length).filter (fun i => P (gf l i))).map (gf l) = l.filter P := by
+  induction l using List.reverseRecOn with
+  | nil => simp
+  | append_singleton l a ih =>
+    have hpre : ∀ i, i < l.length → gf (l ++ [a]) i = gf l i := by
+      intro i hi
+      unfold gf
+      rw [List.getD_eq_getElem?_getD, List.getD_eq_getElem?_getD, List.getElem?_append_left hi]
+    have hlast : gf (l ++ [a]) l.length = a := by
+      unfold gf
+      rw [List.getD_eq_getElem?_getD]
+      simp
+    rw [List.length_append, List.length_singleton, List.range_succ, List.filter_append,
+      List.map_append, List.filter_append]
+    have h1 : (List.range l.length).filter (fun i => P (gf (l ++ [a]) i)) =
+        (List.range l.length).filter (fun i => P (gf l i)) := by
+      apply List.filter_congr
+      intro i hi
+      rw [hpre i (List.mem_range.mp hi)]
+    rw [h1]
+    have h2 : ((List.range l.length).filter (fun i => P (gf l i))).map (gf (l ++ [a])) =
+        ((List.range l.length).filter (fun i => P (gf l i))).map (gf l) := by
+      apply List.map_congr_left
+      intro i hi
+      exact hpre i (List.mem_range.mp (List.mem_filter.mp hi).1)
+    rw [h2, ih]
+    congr 1
+    by_cases hp : P a
+    · simp [hlast, hp]
+    · simp [hlast, hp]
+
 end align
+
+section more
+variable {α : Type} [Field α] [LinearOrder α] [IsStrictOrderedRing α]
+
+theorem update_p (e : Env α) (s : St α) (i j : Nat) : (update e s i j).p = s.p := by
+  unfold update; dsimp only; split_ifs <;> rfl
+theorem update_active (e : Env α) (s : St α) (i j : Nat) : (update e s i j).active = s.active := by
+  unfold update; dsimp only; split_ifs <;> rfl
+theorem update_kidx (e : Env α) (s : St α) (i j : Nat) : (update e s i j).kidx = s.kidx := by
+  unfold update; dsimp only; split_ifs <;> rfl
+theorem update_ub (e : Env α) (s : St α) (i j : Nat) :
+    (update e s i j).ub = (s.ub.set i (gf s.bounds i)).set j (gf s.bounds j) := by
+  unfold update; dsimp only; split_ifs <;> rfl
+
+theorem update_aligned (e : Env α) (p0 b0 : List α) (y0 : List Bool) (s : St α) (i j : Nat)
+    (hi : i < s.alpha.length) (hj : j < s.alpha.length) (h : Aligned p0 b0 y0 s) :
+    Aligned p0 b0 y0 (update e s i j) := by
+  obtain ⟨⟨l1, l2, l3, l4, l5, l6⟩, hk⟩ := h
+  refine ⟨?_, ?_⟩
+  · rw [update_p, update_y, update_bounds, update_ub, update_active, update_kidx, update_alpha_length]
+    simp only [List.length_set]
+    exact ⟨l1, l2, l3, l4, l5, l6⟩
+  · intro k hk'
+    rw [update_alpha_length] at hk'
+    rw [update_p, update_y, update_bounds, update_ub, update_active, update_kidx]
+    obtain ⟨a, b, c, d, e'⟩ := hk k hk'
+    refine ⟨a, b, c, ?_, e'⟩
+    rw [gf_set, gf_set]
+    by_cases h1 : j = k
+    · subst h1
+      simp only [List.length_set, l4, hj, and_self, if_true]
+      exact c
+    · by_cases h2 : i = k
+      · subst h2
+        simp only [h1, false_and, if_false, l4, hi, and_self, if_true]
+        exact c
+      · simp only [h1, h2, false_and, if_false]
+        exact d
+
+end more
 end LinfaSpec.Smo
